@@ -39,3 +39,76 @@ Proof.
         rewrite U, W. destruct (trie_walk T2 rest [x] (negb (e_left (uni T2 x)))); [rewrite C|]; reflexivity.
   - unfold get_state. destruct (firstn (N - 1) ctx); [reflexivity|]. rewrite U, G. reflexivity.
 Qed.
+
+(* ------------------------------------------------------------------------------------------------------------
+   The file round trip, over the C09 development: the system-call trace of a binary build (finish_trace, both
+   write methods), the file semantics, the header constants regenerated from lm/binary_format.cc, and the loader
+   model (load = IsBinaryFormat + ReadHeader + MatchCheck + CheckCounts + LoadBinary + ReadWords; recognize =
+   RecognizeBinary).  `written` describes a file: order, the four bytes of probing_multiplier, model type, search
+   version, counts, vocabulary table, vocab_pad, search structure, vocabulary strings; contents_of hands it to the
+   writer together with ARBITRARY intermediate vocabulary / search bytes (what the mapping held before the final
+   stores).  pm_ok / body_size / words_ok are the environment (the float test, the Size() functions, the string
+   enumeration), universally quantified. *)
+From Kenlm Require Import Gen.BinaryFormatConsts C09.CrashModel C04.RoundTrip.
+Local Close Scope Z_scope.
+
+(* the complete file, all operations applied: header ++ vocabulary ++ vocab_pad zeros ++ search ++ strings *)
+Theorem C04_final_image : forall wm iv c, CrashProofs.wf_contents c ->
+  CrashProofs.final_image wm iv c = expected_image iv c.
+Proof. exact final_image_expected. Qed.
+
+(* byte-identical rebuilds: mmap and write-after leave the same bytes *)
+Theorem C04_write_methods_agree : forall iv c, CrashProofs.wf_contents c ->
+  CrashProofs.final_image WriteMmap iv c = CrashProofs.final_image WriteAfter iv c.
+Proof. exact write_methods_agree. Qed.
+
+(* The complete file is accepted by the loader configured for the type and version that were written (when the
+   Size() functions yield the laid-out size, the strings start with "<unk>\0" and enumerate), and what it obtains is
+   what was written, byte for byte: [0,total) = header ++ vocabulary ++ pad ++ search, the strings; the vocabulary
+   region is found at header_size order, the search region at header_size order + |vocabulary| + vocab_pad. *)
+Theorem C04_write_then_load :
+  forall pm_ok body_size words_ok (w : written) (iv : bool) (vocab1 search1 : list byte),
+  wf_written w vocab1 search1 -> pm_ok [w_p0 w; w_p1 w; w_p2 w; w_p3 w] = true ->
+  forall wm cfg,
+  l_model_type cfg = w_model_type w -> l_search_version cfg = w_search_version w ->
+  (l_enumerate cfg = true -> iv = true) ->
+  body_size cfg (CrashProofs.final_image wm iv (contents_of w iv vocab1 search1)) = length (w_vocab w) + w_pad w + length (w_search w) ->
+  (iv = true -> firstn 6 (w_words w) = unk6) ->
+  (iv = true -> l_enumerate cfg = true -> words_ok (w_counts w) (w_words w) = true) ->
+  load pm_ok body_size words_ok cfg (CrashProofs.final_image wm iv (contents_of w iv vocab1 search1))
+    = Some (body_of w iv, if iv && l_enumerate cfg then Some (w_words w) else None) /\
+  firstn (length (w_vocab w)) (skipn (header_size (w_order w)) (body_of w iv)) = w_vocab w /\
+  firstn (length (w_search w)) (skipn (header_size (w_order w) + length (w_vocab w) + w_pad w) (body_of w iv)) = w_search w /\
+  skipn (length (body_of w iv)) (CrashProofs.final_image wm iv (contents_of w iv vocab1 search1)) = (if iv then w_words w else []).
+Proof. exact write_then_load. Qed.
+
+(* RecognizeBinary returns exactly the header fields that were written *)
+Theorem C04_recognize :
+  forall pm_ok (w : written) (iv : bool) (vocab1 search1 : list byte),
+  wf_written w vocab1 search1 -> pm_ok [w_p0 w; w_p1 w; w_p2 w; w_p3 w] = true ->
+  forall wm,
+  recognize pm_ok (CrashProofs.final_image wm iv (contents_of w iv vocab1 search1)) =
+  Some {| h_order := w_order w; h_probing_multiplier := [w_p0 w; w_p1 w; w_p2 w; w_p3 w];
+          h_model_type := w_model_type w; h_has_vocabulary := iv;
+          h_search_version := w_search_version w; h_counts := w_counts w |}.
+Proof. exact recognize_written. Qed.
+
+(* a loader of another model type or search version refuses the file (MatchCheck) *)
+Theorem C04_other_type_rejected :
+  forall pm_ok body_size words_ok (w : written) (iv : bool) (vocab1 search1 : list byte),
+  wf_written w vocab1 search1 -> pm_ok [w_p0 w; w_p1 w; w_p2 w; w_p3 w] = true ->
+  forall wm cfg,
+  l_model_type cfg <> w_model_type w \/ l_search_version cfg <> w_search_version w ->
+  load pm_ok body_size words_ok cfg (CrashProofs.final_image wm iv (contents_of w iv vocab1 search1)) = None.
+Proof. exact other_type_rejected. Qed.
+
+(* the header really is the code's: WriteHeader's layout reproduces the offsets of FixedWidthParameters of the
+   current sources, and its length is TotalHeaderSize(order) *)
+Theorem C04_header_layout : forall order p0 p1 p2 p3 mtype hv version counts,
+  order <= max_order -> length counts = 8 * order ->
+  length (make_header order p0 p1 p2 p3 mtype hv version counts) = header_size order /\
+  nth off_order (make_fixed order p0 p1 p2 p3 mtype hv version) 0 = order /\
+  firstn 4 (skipn off_probing_multiplier (make_fixed order p0 p1 p2 p3 mtype hv version)) = [p0; p1; p2; p3] /\
+  nth off_has_vocabulary (make_fixed order p0 p1 p2 p3 mtype hv version) 0 = hv /\
+  length (make_fixed order p0 p1 p2 p3 mtype hv version) = fixed_size.
+Proof. exact header_layout. Qed.
